@@ -170,6 +170,9 @@ enum Work {
     /// constants, 2: product of a constant with the constant one): n, x coefficients, source,
     /// claimed digits (public)
     BitsConst(usize, [u64; 4], u8, Vec<u64>),
+    /// explicit recomposition whose higher coefficients are builder constants (zero padding):
+    /// split tables?, position of the live coefficient, its value (extension coefficients)
+    RecompPad(bool, usize, [u64; 4]),
     /// coefficient decomposition over Goldilocks D=2 / KoalaBear D=5 / BabyBear D=4+recompose
     CoeffX(coeffx::CoeffX),
 }
@@ -430,8 +433,54 @@ fn bits_const_cases(out: &mut Vec<Case>) {
     }
 }
 
+/// `recompose_base_coeffs_to_ext` called with one live coefficient (a public input) and constant
+/// zeros elsewhere — the shape the challenger produces when it pads a limb. The claim "the packed
+/// element is c·X^pos with c taken as it is" holds only for a base-field c: for a c with higher
+/// extension coefficients the recomposition must not verify, whatever shortcut the builder takes
+/// for constant-padded coefficient lists.
+fn recomp_pad_cases(out: &mut Vec<Case>) {
+    for split in [false, true] {
+        for pos in 0..4usize {
+            for v in [[5u64, 0, 0, 0], [0, 0, 0, 0], [5, 1, 0, 0], [0, 0, 0, 3], [7, 2, 1, 4]] {
+                let base = v[1..].iter().all(|c| *c == 0);
+                out.push(Case {
+                    site: format!("recompose_base_coeffs_to_ext(zero-padded, live pos {pos})/{}", if split { "npo_coeff" } else { "npo" }),
+                    class: if base { "canonical" } else { "non_base_coefficient_taken_as_is" },
+                    detail: format!("c={v:?}"),
+                    canonical: base,
+                    work: Work::RecompPad(split, pos, v),
+                });
+            }
+        }
+    }
+}
+
 fn run_case(w: &Work) -> Outcome {
     match w {
+        Work::RecompPad(split, pos, v) => {
+            let mut b = CircuitBuilder::<KB4>::new();
+            b.enable_recompose::<KB>(generate_recompose_trace::<KB, KB4>);
+            let c = b.public_input();
+            let zero = b.define_const(KB4::ZERO);
+            let coeffs: Vec<ExprId> = (0..4).map(|i| if i == *pos { c } else { zero }).collect();
+            let r = if *split { b.recompose_base_coeffs_to_ext_with_coeff_lookups::<KB>(&coeffs) } else { b.recompose_base_coeffs_to_ext::<KB>(&coeffs) };
+            let r = match r {
+                Ok(r) => r,
+                Err(e) => return Outcome::RunRejected(format!("builder: {e:?}")),
+            };
+            let e = b.public_input();
+            b.connect(r, e);
+            let circuit = match b.build() {
+                Ok(c) => c,
+                Err(e) => return Outcome::RunRejected(format!("build: {e:?}")),
+            };
+            let cv = ext_from::<KB, KB4>(&v.iter().map(|x| KB::from_u64(*x)).collect::<Vec<_>>());
+            // X^pos as an extension element
+            let mut unit = [KB::ZERO; 4];
+            unit[*pos] = KB::ONE;
+            let claimed = cv * ext_from::<KB, KB4>(&unit);
+            prove_kb_recompose(&circuit, &[cv, claimed], *split, None)
+        }
         Work::BitsConst(n, xv, src, digits) => {
             let mut b = CircuitBuilder::<BB4>::new();
             let xc = ext_from::<BB, BB4>(&xv.iter().map(|v| BB::from_u64(*v)).collect::<Vec<_>>());
@@ -674,6 +723,7 @@ fn main() {
     }
     bits_twice_cases(&mut cases);
     bits_const_cases(&mut cases);
+    recomp_pad_cases(&mut cases);
     for mode in ["alu", "npo", "npo_coeff"] {
         coeff_cases(mode, &mut cases);
     }
